@@ -308,6 +308,10 @@ class StepOperationExecutor(OperationExecutor[T]):
         )
         try:
             retry_decision: RetryDecision = retry_strategy(error, retry_attempt + 1)
+            # read the decision here as well: one that cannot be read (None, a delay that is not
+            # a Duration) is a failed strategy too
+            should_retry: bool = retry_decision.should_retry
+            delay_seconds = retry_decision.delay_seconds if should_retry else 0
         except Exception:  # noqa: BLE001
             # A strategy that fails cannot decide anything: the step's own failure is recorded and
             # raised as final, instead of leaving the call without any terminal record.
@@ -317,8 +321,9 @@ class StepOperationExecutor(OperationExecutor[T]):
                 self.operation_identifier.name,
             )
             retry_decision = RetryDecision.no_retry()
+            should_retry, delay_seconds = False, 0
 
-        if retry_decision.should_retry:
+        if should_retry:
             logger.debug(
                 "Retrying step for id: %s, name: %s, attempt: %s",
                 self.operation_identifier.operation_id,
@@ -332,7 +337,6 @@ class StepOperationExecutor(OperationExecutor[T]):
             # a) those are used throughout the codebase, e.g. in wait(..) <- enforcement is done in context
             # b) they shouldn't know model specific details <- enforcement is done above
             # and c) this "issue" arises from retry-decision and we shouldn't push it down
-            delay_seconds = retry_decision.delay_seconds
             if delay_seconds < 1:
                 logger.warning(
                     (
